@@ -111,3 +111,9 @@ check('C18', 'exploration',
       '{set parameters A/B, forecast, pieces, validation} to depth 3 (4) are checked against the reference with the current parameters (quick 1.4e5 evaluations, 89-92% corner solutions).',
       '3 goods only; continuous domains on grids; strictly concave utilities; the epsilon column convention is key_to_index; parameters change only through the estimation_results setter; the engine is trusted for the value and gradient of the symbolic utility.',
       'bounded exhaustive enumeration of problems x labelings x histories against a reference solver and closed forms', 'DESIGN.md section 4, C18')
+check('C07', 'exploration',
+      'Bounded exhaustive enumeration on the real estimate() / quick_estimate(): 8 concave model templates x every table of a finite family (tables without a finite well-conditioned interior maximum rejected by the reference and counted) x 26 algorithm names / option variants x bound configurations derived from the reference optimum '
+      '(none, inactive, upper/lower bound active on each parameter) x 3 starts x both entry points (quick 2.4e4 executions, thorough 1.6e5). Each run is compared with a plain-Python closed-form likelihood, gradient, Hessian and BHHH and with a Newton / active-set reference optimum: feasibility, monotonicity, recomputation of the reported value and derivatives, '
+      'KKT and agreement at reported convergence, write-back and fixed parameters. Bootstrap histories with every multiset resample (owned through numpy.random.randint, cross-section and panel) check that the reported likelihood is recomputable afterwards.',
+      'Concave logit / normal-regression models with 1-3 free parameters on 3-6 row tables; tolerances are the design values widened only to what the algorithms\' own relative-gradient stopping rule permits; algorithms without bound support compared with the unconstrained optimum only.',
+      'bounded exhaustive enumeration of models x tables x algorithms x bounds x starts on the real estimation entry points vs closed-form reference optimum', 'DESIGN.md section 4, C07')
